@@ -208,6 +208,10 @@ class Collector(object):
         self.shrink_cap_s = 40 if tier == 'quick' else 240
         self.fail_t0 = {}
         self.fail_hashes = {}
+        # pooled rate clauses: oracles may return info['tally'] = {key: [successes, trials]}; the main process sums them
+        # over all shards and applies the module's POOLED tests (exact binomial) to the totals
+        self.tally = {}
+        self.tally_cases = {}
         self.skipped_shrink = 0
 
     def run_case(self, sub, case, replaying=False):
@@ -237,6 +241,11 @@ class Collector(object):
                 raise
         self.evaluations += 1
         self.per_sub[sub.name] += 1
+        for key, (ok_, tot_) in (info.get('tally') or {}).items():
+            t = self.tally.setdefault(key, [0, 0])
+            t[0] += int(ok_)
+            t[1] += int(tot_)
+            self.tally_cases.setdefault(key, []).append(case)
         for c in info.get('classes', []):
             self.classes[sub.name + ':' + c] += 1
         if info.get('nontrivial'):
@@ -267,6 +276,8 @@ class Collector(object):
             'samples': self.samples,
             'violations': self.violations,
             'harness_errors': self.harness_errors,
+            'tally': self.tally,
+            'tally_cases': self.tally_cases,
         }
 
 
@@ -408,7 +419,7 @@ def merge(results):
     out = {
         'evaluations': 0, 'per_sub': Counter(), 'nontrivial': set(), 'classes': Counter(),
         'known_hits': Counter(), 'known_examples': {}, 'skipped_budget': 0, 'samples': [],
-        'violations': [], 'harness_errors': [], 'nontrivial_per_sub': Counter(),
+        'violations': [], 'harness_errors': [], 'nontrivial_per_sub': Counter(), 'tally': {}, 'tally_cases': {},
     }
     for r in results:
         out['evaluations'] += r['evaluations']
@@ -422,6 +433,11 @@ def merge(results):
         out['skipped_budget'] += r['skipped_budget']
         out['violations'].extend(r['violations'])
         out['harness_errors'].extend(r['harness_errors'])
+        for key, (ok_, tot_) in (r.get('tally') or {}).items():
+            t = out['tally'].setdefault(key, [0, 0])
+            t[0] += ok_
+            t[1] += tot_
+            out['tally_cases'].setdefault(key, []).extend(r.get('tally_cases', {}).get(key, []))
     # samples: per sub keep first of shard 0, and up to 3 from other shards
     per = {}
     for r in results:
@@ -452,6 +468,7 @@ def write_evidence(mod, tier, seed, merged, wall, replayed, nshards):
         'exhaustive': False,
         'code_under_test': REPO,
         'harness_errors': merged['harness_errors'],
+        'pooled_rate_tallies': {k: {'successes': v[0], 'trials': v[1]} for k, v in sorted(merged.get('tally', {}).items())},
     }
     ev = {
         'property_id': mod.PROPERTY_ID,
@@ -553,6 +570,22 @@ def drive(prop, tier, seed, nshards, budget_s, only=None):
 
     merged = merge(results)
     merged['violations'] = violations + merged['violations']
+    # pooled rate clauses (exact binomial on the totals over all shards)
+    for pooled in getattr(mod, 'POOLED', []):
+        for key, (ok_, tot_) in sorted(merged['tally'].items()):
+            if not key.startswith(pooled['prefix']) or tot_ == 0:
+                continue
+            from scipy import stats as _st
+
+            p = float(_st.binom.cdf(ok_, tot_, pooled['rate']))
+            if p < pooled.get('alpha', 1e-12):
+                v = Violation('%s: %d of %d generated datasets succeed (%.1f%%), required %.0f%%; exact binomial p=%.3g'
+                              % (key, ok_, tot_, 100.0 * ok_ / tot_, 100 * pooled['rate'], p), tag='pooled-rate')
+                v.case = {'key': key, 'chunks': merged['tally_cases'][key]}
+                path = write_violation(prop, pooled['replay_sub'], v)
+                rec = v.to_json()
+                rec.update({'sub': pooled['replay_sub'], 'replay': path})
+                merged['violations'].append(rec)
     merged['harness_errors'].extend(harness_errors)
     merged['known_hits'].update(known_hits_replay)
     wall = time.time() - t0
